@@ -404,6 +404,12 @@ def jobs(tier):
     return out
 
 
+
+# heavy shards are split into disjoint parts of their path tree (run in parallel; together exactly the unsplit exploration)
+def slices(job, tier):
+    h, a = job
+    return 3 if h in ('report', 'summaries', 'stats') and a[0] * a[1] >= 6 else (2 if h == 'summaries' else 1)
+
 OPTS = {'quick': {'time_budget': 70}, 'thorough': {'time_budget': 900}}
 
 META = {
